@@ -337,6 +337,10 @@ def run(ctx):
               'the write-back (a used backend partitions a block like a fresh one)', what=('attrstores',),
               heap={'num_bits': lift(8), 'input_file_stem': _NONE}, args={'digitize': _TRUE, 'requantize': _TRUE}, no_inline=_NI,
               expand=False, max_depth=0)
+    # what a recording writes does not depend on earlier recordings in the same process: no memoised reader hands the same
+    # (mutable) parsed file to every caller
+    from .common import memo_obligation
+    memo_obligation(ctx, ctx.func(B + '.record'), 'recordings share no memoised file contents')
     # run-to-run determinism also needs every iteration order to follow from the inputs (PYTHONHASHSEED-dependent
     # set order, directory listing order)
     unordered_sweep(ctx)
